@@ -4,24 +4,31 @@ A case is a small real asynq program: a few @deduplicate() functions (module lev
 generated signatures, a pool of scripted bodies (block on a harness batch once or several times, call themselves or
 other keys from inside the running body, dirty(), await / synchronously evaluate the private task they got, catch a
 failing dependency = resumed by throw(), return or raise) and a few concurrent "actor" tasks that issue .asynq() /
-.dirty() calls with generated spellings (positional / keyword / default / keyword-only / *args / **kwargs, from the
-main thread or from helper threads) in the same yield, after one or more flushes, after completion, failure, dirty().
+.dirty() calls with generated spellings (positional / keyword / default / keyword-only / positional-only / *args /
+**kwargs, from the main thread or from helper threads) in the same yield, after one or more flushes, after completion,
+failure, dirty().
 
 Everything the program does is logged in order: every call with the identity token of the task it returned and whether
 that object is new, every start (with what the body actually bound) / resume / suspend of a body, every completion,
 every dirty, and len(DeduplicateDecorator.tasks) after each.  The Lean model (AsynqModel.Lib.Dedup: get_args_tuple as
 written in qcore + the table operations of DeduplicateDecorator) replays the same operations (correspondence) and the
-Lean observer `Dedup.spec` (the statement of C12 over bindings, proved of the model for all histories on every signature
-that does not combine *args with keyword-only parameters) judges the implementation's observations on their own.
+Lean observer `Dedup.spec` (the statement of C12 over bindings, proved of the model for ALL histories whose calls /
+dirty() satisfy `callOk`, see ASSUMPTIONS) judges the implementation's observations on their own.
+
+The default key is known to conflate different calls in three situations; each is modelled as the code is, has a
+machine-checked counterexample and a clause name of its own (stable signature):
+  varargs-kwonly       *args + keyword-only parameters                                  (C12_key_normal_counterexample)
+  posonly-varkw        positional-only parameters + **kwargs, keyword named like one    (C12_key_posonly_counterexample)
+  varargs-varkw-pair   *args + **kwargs, an extra positional is a ("name", value) tuple (C12_key_pair_counterexample)
 
 Round 3 dimensions: helper threads have a LIFETIME (`retire` joins the thread of a slot and logs `threadEnd`; the next call
 on that slot runs on a NEW Thread object = a new thread token, which usually gets the recycled OS ident and always the
 same name as every other helper); calls whose task nobody awaits (`callx`: the entry stays in the table as leftover); a
 second / third top-level computation in the same case (`more`); bodies that fail with a BaseException-only error;
 argument values that are falsy / None / empty containers / objects with unusual __bool__, __repr__, value-__eq__ made fresh
-for every call / large ints (equal, never identical); long *rest tuples; and the FAN-OUT family: n = 20 .. 2200
-(thorough: .. 8300) distinct keys in flight at the same time (blocked on a batch, or created and never run), then repeated
-calls for the oldest / middle / newest keys - the number of simultaneous entries is a parameter of the case."""
+for every call / large ints (equal, never identical) / ("p<n>", value) tuples; long *rest tuples; and the FAN-OUT family:
+n = 20 .. 2200 (thorough: .. 8300) distinct keys in flight at the same time (blocked on a batch, or created and never
+run), then repeated calls for the oldest / middle / newest keys - the number of simultaneous entries is a parameter."""
 import hashlib
 import json
 import random
@@ -31,30 +38,40 @@ LEVEL = "proof"
 LEAN_MODULES = ["AsynqModel.Theorems.C12"]
 THEOREMS = [
     "AsynqModel.Dedup.C12_spec_holds_partial",
+    "AsynqModel.Dedup.C12_spec_holds_sigs",
+    "AsynqModel.Dedup.C12_spec_needs_histOk",
     "AsynqModel.Dedup.C12_key_normal_partial",
     "AsynqModel.Dedup.C12_key_normal_counterexample",
-    "AsynqModel.Dedup.C12_completion_keeps_newer",
+    "AsynqModel.Dedup.C12_key_posonly_counterexample",
+    "AsynqModel.Dedup.C12_key_pair_counterexample",
     "AsynqModel.Dedup.C12_valid_call_has_key",
+    "AsynqModel.Dedup.C12_completion_keeps_newer",
     "AsynqModel.Dedup.C12_inflight_shared",
+    "AsynqModel.Dedup.C12_running_escape_private",
     "AsynqModel.Dedup.C12_rerun_after_complete",
     "AsynqModel.Dedup.C12_rerun_after_dirty",
     "AsynqModel.Dedup.C12_disjoint",
     "AsynqModel.Dedup.C12_instances_disjoint",
-    "AsynqModel.Dedup.C12_running_escape_private",
     "AsynqModel.Dedup.C12_shared_task_has_callers_key",
-    "AsynqModel.Dedup.C12_thread_end_noop",
     "AsynqModel.Dedup.C12_entry_survives_others",
-    "AsynqModel.Dedup.C12_shared_after_any_fanout",
+    "AsynqModel.Dedup.C12_entry_kept_while_calm",
+    "AsynqModel.Dedup.C12_one_creation_per_period",
+    "AsynqModel.Dedup.C12_shared_while_calm",
+    "AsynqModel.Dedup.C12_body_starts_once",
 ]
 BUILDS = {"quick": ["py"], "thorough": ["py", "cy"]}
 RULE = ("real asynq programs: 1-3 @deduplicate() functions (function / method on 1-3 instances / staticmethod; generated "
-        "signatures with defaults, keyword-only, *args, **kwargs; argument values from small ints, the hash-colliding ints -1/-2 and "
-        "hash-colliding objects), scripted bodies (0-3 yields on a harness batch, inside "
+        "signatures with defaults, keyword-only, positional-only (15%), *args, **kwargs; argument values from small ints, the "
+        "hash-colliding ints -1/-2, hash-colliding objects and ('p<n>', value) tuples that equal a **kwargs entry of the key), "
+        "scripted bodies (0-3 yields on a harness batch, inside "
         "calls, dirty, private-task await / sync evaluation, throw()-resumption, return / raise) and 1-4 concurrent actor "
-        "tasks of 1-4 phases issuing calls/dirty() with random spellings of few logical calls (so keys collide) on 1-3 "
+        "tasks of 1-4 phases issuing calls/dirty() with random spellings of few logical calls (so keys collide; 6% of the "
+        "calls and 8% of the dirty() are malformed: too many / missing / unexpected / multiple) on 1-3 "
         "threads; plus a fixed corpus of the named schedules (same yield, later step while blocked, between two flushes, "
-        "after completion / failure / dirty, same / different instances, staticmethod, two functions, recursion) over "
-        "several signatures; round 3: thread lifetimes (retire = join the helper thread of a slot, the next call on the slot "
+        "after completion / failure / dirty, same / different instances, staticmethod, two functions, recursion, dirty() "
+        "with arguments that do not bind - raising and not raising - while the task is in flight, the three key "
+        "conflations and their harmless neighbours) over several signatures; round 3: thread lifetimes (retire = join the "
+        "helper thread of a slot, the next call on the slot "
         "is a new Thread object with the recycled ident and the same name; ~10% of the generated cases are thread-churn "
         "cases), abandoned calls (task never awaited: leftover entry), up to 3 top-level computations per case, "
         "BaseException-only failures, exotic argument values (None, '', (), frozenset(), falsy object, raising __repr__, "
@@ -67,24 +84,40 @@ TRUSTED = [
     "hand-written Lean model AsynqModel.Lib.Dedup tied to the code by this differential run only",
     "Python harness checks/c12.py (token <-> object identity mapping, event log written by the generated bodies, "
     "len(DeduplicateDecorator.tasks) peek)",
-    "Python call binding (modelled by Sig.bind, compared with what every started body actually received), "
-    "CPython generator send/throw semantics, qcore.decorators (decorate / DecoratorBase.__get__ / get_original_fn)",
-    "the scheduler itself (when bodies start / resume / complete is an input of the model here; C01-C08 cover it)",
+    "Python call binding incl. positional-only parameters (modelled by Sig.bind, compared with what every started body "
+    "actually received), CPython generator send/throw semantics, qcore.decorators (decorate / DecoratorBase.__get__ / "
+    "get_original_fn)",
+    "the scheduler itself (when bodies start / resume / complete is an input of the model here; C01-C08 cover it); that a "
+    "task's body starts once is a clause of the observer (started-twice) judged on the implementation's log",
 ]
 ASSUMPTIONS = [
-    "argument values are hashable atoms compared by ==; the model's key equality is equality of value TOKENS, so two "
+    "hypothesis of the `_partial` theorems (Lean: histOk / callOk, decidable): every call / dirty() goes to a function whose "
+    "signature does not combine *args with keyword-only parameters, nor positional-only parameters with **kwargs, and - "
+    "when the signature has both *args and **kwargs - passes no positional argument that is a ('name', value) 2-tuple. "
+    "Outside it the property is FALSE of the code (three machine-checked counterexamples, C12_spec_needs_histOk); such "
+    "cases are generated and reported under the clause names varargs-kwonly / posonly-varkw / varargs-varkw-pair",
+    "argument values are hashable atoms compared by ==, or 2-tuples ('p<n>', atom); the model's key equality is equality "
+    "of value TOKENS (normal form KeyElem.ofVal), so two "
     "distinct values whose hashes collide (-1 / -2, objects with a constant __hash__) are two different tokens and are "
-    "generated on purpose; equal values of different types (1 == 1.0 == True) are one value; no argument is itself a "
-    "(name, value) tuple that could imitate a **kwargs entry of the key",
+    "generated on purpose; equal values of different types (1 == 1.0 == True) are one value",
     "functions stay alive while their tasks are in flight (id(self.fn) is not reused); asyncio mode is C15's",
+    "receiver instances compare by identity (two instances that are == share a key by design of the key)",
     "one thread token per threading.Thread OBJECT (slot + 3 * incarnation); a retired thread is joined before its "
     "threadEnd is logged and never calls again; a new helper thread that did not get the ident of a finished, logged "
     "thread is parked before it calls anything and creation is retried (<= 25 short attempts), so that later threads "
     "run on a recycled ident whenever the OS allows it (feature thread-ident-recycled counts it)",
     "the synchronous call f(x) of a deduplicated function does not go through the table at all (AsyncDecorator.__call__ "
     "-> _call_pure) and is not part of the statement (\".asynq() call\"); a custom keygetter= is not part of it either",
-    "decorated functions are generator functions (binding errors surface at .asynq() time)",
-    "dirty() called with arguments that do not bind is outside the statement (the observer stops judging there)",
+    "decorated functions are generator functions (binding errors surface at .asynq() time; a plain function that does not "
+    "bind would be registered and fail only when run)",
+    "calls from INSIDE the running body of the in-flight task are outside the statement (\"from outside the running "
+    "body\"): the observer accepts that very task or a new private task there, nothing else",
+    "a call or dirty() whose arguments do not bind is outside the statement; the observer still requires that such a call "
+    "creates nothing, that such a dirty() changes nothing when it raises, and - when it does not raise - gives up "
+    "certainty only about the calls of that function on that thread that are in flight at that moment, until each is "
+    "called again (Watch.poss); everything else is judged throughout the whole history",
+    "len(DeduplicateDecorator.tasks) is judged by bounds (sizeOk: +0/+1 for a new task, no growth on dirty()/completion, "
+    "unchanged otherwise); its exact value is compared with the model by the correspondence only",
 ]
 CASE_TIMEOUT = 20
 MAXRUNS = 10
@@ -107,8 +140,19 @@ def gen_sig(rng, kind):
         pos.append([names[i], d])
     nkw = rng.choice([0, 0, 0, 1, 1, 2])
     kwonly = [[names[npos + i], rng.choice([None, 0, 1])] for i in range(nkw)]
+    # positional-only parameters (`def f(p0, p1, /, p2)`): the first `posonly` entries of pos
+    posonly = rng.randint(1, npos) if npos and rng.random() < 0.15 else 0
     return {"kind": kind, "pos": pos, "kwonly": kwonly,
-            "varargs": rng.random() < 0.2, "varkw": rng.random() < 0.2}
+            "varargs": rng.random() < 0.2, "varkw": rng.random() < 0.2, "posonly": posonly}
+
+
+PAIR_BASE = 10 ** 6
+
+
+def pair_tok(name, v):
+    """value token of the Python tuple ("p<name>", <value of token v>): equal to the (name, value) pair that
+    get_args_tuple appends to the key for a keyword that names no parameter (Lean: Dedup.pairTok)"""
+    return PAIR_BASE + 1000 * name + v
 
 
 # value tokens: 0..3 small ints; 50 / 51 = the ints -1 / -2 (DISTINCT values, hash(-1) == hash(-2) in CPython);
@@ -119,7 +163,8 @@ def gen_sig(rng, kind):
 # made fresh for every use (equal to each other, never identical); 1000.. = the int itself (not interned: equal,
 # never identical).  Defaults of parameters are the ints 0..2, so "falsy explicit value vs truthy default" is generated.
 DOMAINS = [[0, 1], [0, 1], [0, 1], [0, 1], [50, 51], [60, 61], [0, 50, 51], [1, 60, 61], [50, 51, 60, 61],
-           [0, 70], [70, 71, 72], [0, 73, 74], [74, 75], [76, 77], [1, 76, 70], [1000, 1001], [0, 71, 1000]]
+           [0, 70], [70, 71, 72], [0, 73, 74], [74, 75], [76, 77], [1, 76, 70], [1000, 1001], [0, 71, 1000],
+           [0, pair_tok(6, 0)], [0, 1, pair_tok(6, 0), pair_tok(7, 1)], [1, pair_tok(6, 1), pair_tok(1, 1)]]
 
 
 def logical_calls(rng, decl, ninst, n=2, dom=(0, 1)):
@@ -144,6 +189,10 @@ def logical_calls(rng, decl, ninst, n=2, dom=(0, 1)):
         if decl["varkw"] and rng.random() < 0.5:
             for nm in rng.sample([6, 7], rng.randint(1, 2)):
                 extra[nm] = rng.choice(dom)
+        first = 1 if decl["kind"] == "method" else 0
+        if decl["varkw"] and decl.get("posonly", 0) > first and rng.random() < 0.5:
+            # legal since PEP 570: the keyword lands in **extra, the parameter keeps its positional value / default
+            extra[decl["pos"][rng.randrange(first, decl["posonly"])][0]] = rng.choice(dom)
         res.append({"vals": vals, "rest": rest, "extra": extra})
     return res
 
@@ -164,16 +213,23 @@ def spell(rng, fi, decl, lc, nthreads, malformed=False):
     elif decl["kind"] == "static":
         recv = "cls" if rng.random() < 0.6 else ["inst", 0]
     rest = lc["rest"]
+    po = decl.get("posonly", 0)
     if rest:
         k = len(pos)
     else:
-        k = rng.randint(first, len(pos))
+        lo = max(first, po)
+        # trailing positional-only parameters that have their default value may be left out
+        while lo > first and pos[lo - 1][1] is not None and vals[pos[lo - 1][0]] == pos[lo - 1][1] and rng.random() < 0.4:
+            lo -= 1
+        k = rng.randint(lo, len(pos)) if lo >= po else lo
         if decl["varargs"] and decl["kwonly"] and rng.random() < 0.3:
             k = len(pos)
     args = [vals[pos[i][0]] for i in range(first, k)] + list(rest)
     kw = []
     for i in range(max(k, first), len(pos)):
         nm, d = pos[i]
+        if i < po:
+            continue            # positional-only and left out: it has its default value (see above)
         if d is not None and vals[nm] == d and rng.random() < 0.6:
             continue
         kw.append([nm, vals[nm]])
@@ -260,7 +316,7 @@ def gen_case(rng):
                     elif rng.random() < 0.82:
                         acts.append(["callx" if rng.random() < p_x else "call"] + calls())
                     else:
-                        acts.append(["dirty"] + calls(0.02))
+                        acts.append(["dirty"] + calls(0.08))
                 wait = rng.choices(["mine", "tick", "all", "first"], weights=[5, 4, 1, 1])[0]
                 phases.append({"acts": acts, "wait": wait})
             actors.append(phases)
@@ -288,6 +344,8 @@ SIGS = [
     {"kind": "method", "pos": [[0, None], [1, 0]], "kwonly": [[2, 0]], "varargs": False, "varkw": False},
     {"kind": "static", "pos": [[0, None], [1, 1]], "kwonly": [], "varargs": False, "varkw": False},
     {"kind": "func", "pos": [], "kwonly": [], "varargs": False, "varkw": False},
+    {"kind": "func", "pos": [[0, None], [1, 1]], "kwonly": [[2, 0]], "varargs": False, "varkw": False, "posonly": 1},
+    {"kind": "method", "pos": [[0, None], [1, None], [2, 1]], "kwonly": [], "varargs": False, "varkw": False, "posonly": 2},
 ]
 
 
@@ -295,14 +353,18 @@ def two_spellings(decl, inst=0):
     """two different spellings of the same logical call (all defaults), and a spelling of a different call"""
     pos = decl["pos"]
     first = 1 if decl["kind"] == "method" else 0
+    po = max(decl.get("posonly", 0), first)
     recv = ["inst", inst] if decl["kind"] == "method" else ("cls" if decl["kind"] == "static" else "none")
-    a1, k1, k2, k3 = [], [], [], []
+    a1, k1, a2, k2, k3 = [], [], [], [], []
     for i in range(first, len(pos)):
         nm, d = pos[i]
         v = d if d is not None else 1
         a1.append(v)
-        k2.append([nm, v])
-        k3.append([nm, v])
+        if i < po:
+            a2.append(v)            # positional-only: never by keyword
+        else:
+            k2.append([nm, v])
+            k3.append([nm, v])
     for nm, d in decl["kwonly"]:
         v = d if d is not None else 1
         k1.append([nm, v])
@@ -310,15 +372,18 @@ def two_spellings(decl, inst=0):
             k2.append([nm, v])
             k3.append([nm, v])
     s1 = [recv, a1, k1, 0]
-    s2 = [recv, [], list(reversed(k2)), 0]
+    s2 = [recv, list(a2), list(reversed(k2)), 0]
     # required parameters only (defaults omitted) for the first spelling when possible
     nreq = len([1 for i in range(first, len(pos)) if pos[i][1] is None])
     if nreq < len(a1):
         s1 = [recv, a1[:nreq], [kv for kv in k1 if dict(map(tuple, decl["kwonly"])).get(kv[0]) is None], 0]
-    # a different logical call: change the last named value (or add nothing if there is no parameter)
+    # a different logical call: change the last named value (or the last positional-only one)
+    a3 = list(a2)
     if k3:
         k3[-1] = [k3[-1][0], k3[-1][1] + 1]
-    s3 = [recv, [], k3, 0]
+    elif a3:
+        a3[-1] = a3[-1] + 1
+    s3 = [recv, a3, k3, 0]
     return s1, s2, s3
 
 
@@ -383,6 +448,49 @@ def named_schedules():
     cases.append({"fns": [va], "ninst": 1, "bodies": [one_item], "actors": [[{"acts": [
         ["call", 0, "none", [1, 2], [], 0], ["call", 0, "none", [1], [[1, 2]], 0],
         ["call", 0, "none", [1, 2], [[1, 1]], 0]], "wait": "mine"}]]})
+    # positional-only parameters together with **kwargs: a keyword that has the NAME of a positional-only parameter lands
+    # in **extra (PEP 570); the default key drops it (name in arg_names) or takes it for the parameter
+    pk = {"kind": "func", "pos": [[0, None]], "kwonly": [], "varargs": False, "varkw": True, "posonly": 1}
+    cases.append({"fns": [pk], "ninst": 1, "bodies": [one_item], "actors": [[{"acts": [
+        ["call", 0, "none", [1], [[0, 2]], 0], ["call", 0, "none", [1], [], 0],
+        ["call", 0, "none", [1], [[0, 3]], 0]], "wait": "mine"}]]})
+    pk2 = {"kind": "func", "pos": [[0, 0], [1, 1]], "kwonly": [], "varargs": False, "varkw": True, "posonly": 1}
+    cases.append({"fns": [pk2], "ninst": 1, "bodies": [one_item], "actors": [[{"acts": [
+        ["call", 0, "none", [], [[0, 1]], 0], ["call", 0, "none", [1], [], 0]], "wait": "mine"}]]})
+    # ... the same signature is fine as long as no keyword uses such a name (the observer keeps judging it)
+    cases.append({"fns": [pk], "ninst": 1, "bodies": [two_items], "actors": [
+        [{"acts": [["call", 0, "none", [1], [[6, 2]], 0], ["call", 0, "none", [1], [], 0]], "wait": "mine"}],
+        [{"acts": [], "wait": "tick"}, {"acts": [["call", 0, "none", [1], [[6, 2]], 0], ["call", 0, "none", [1], [], 0],
+                                                 ["call", 0, "none", [2], [], 0]], "wait": "mine"}]]})
+    # *args together with **kwargs: an overflow positional that is a ("name", value) tuple is the same key element as
+    # the keyword name=value
+    pv = {"kind": "func", "pos": [], "kwonly": [], "varargs": True, "varkw": True}
+    cases.append({"fns": [pv], "ninst": 1, "bodies": [one_item], "actors": [[{"acts": [
+        ["call", 0, "none", [pair_tok(6, 1)], [], 0], ["call", 0, "none", [], [[6, 1]], 0]], "wait": "mine"}]]})
+    pv2 = {"kind": "func", "pos": [[0, None]], "kwonly": [], "varargs": True, "varkw": True}
+    cases.append({"fns": [pv2], "ninst": 1, "bodies": [one_item], "actors": [[{"acts": [
+        ["call", 0, "none", [1], [[6, 0], [7, 1]], 0], ["call", 0, "none", [1, pair_tok(6, 0)], [[7, 1]], 0]], "wait": "mine"}]]})
+    # ... with ordinary values the same signatures are fine; and such tuples are ordinary values everywhere else
+    cases.append({"fns": [pv2], "ninst": 1, "bodies": [two_items], "actors": [
+        [{"acts": [["call", 0, "none", [1, 2], [[6, 0]], 0], ["call", 0, "none", [1], [[6, 0]], 0]], "wait": "mine"}],
+        [{"acts": [], "wait": "tick"}, {"acts": [["call", 0, "none", [1, 2], [[6, 0]], 0], ["call", 0, "none", [], [[6, 0], [0, 1]], 0],
+                                                 ["call", 0, "none", [1, 2], [], 0]], "wait": "mine"}]]})
+    f2 = {"kind": "func", "pos": [[0, None], [1, 0]], "kwonly": [], "varargs": False, "varkw": True}
+    cases.append({"fns": [f2], "ninst": 1, "bodies": [two_items], "actors": [
+        [{"acts": [["call", 0, "none", [pair_tok(6, 1)], [], 0], ["call", 0, "none", [1], [[6, 1]], 0]], "wait": "mine"}],
+        [{"acts": [], "wait": "tick"}, {"acts": [["call", 0, "none", [], [[0, pair_tok(6, 1)]], 0],
+                                                 ["call", 0, "none", [1, 0], [[6, 1]], 0],
+                                                 ["call", 0, "none", [1, pair_tok(6, 1)], [], 0]], "wait": "mine"}]]})
+    # dirty() with arguments that do not bind, while the task is in flight: one that raises (nothing may change: the
+    # other spelling still shares) and one that does not raise (f(1, 1, p0=1) has the key of f(1): the entry goes)
+    f0 = SIGS[0]
+    for ill in (["dirty", 0, "none", [], [], 0], ["dirty", 0, "none", [], [[1, 1]], 0], ["dirty", 0, "none", [1, 1], [[0, 1]], 0],
+                ["dirty", 0, "none", [1, 1, 1], [], 0], ["dirty", 0, "none", [1], [[6, 1]], 0]):
+        cases.append({"fns": [f0], "ninst": 1, "bodies": [two_items], "actors": [
+            [{"acts": [["call", 0, "none", [1], [], 0], ["call", 0, "none", [2], [], 0]], "wait": "mine"}],
+            [{"acts": [], "wait": "tick"}, {"acts": [ill, ["call", 0, "none", [], [[1, 1], [0, 1]], 0],
+                                                     ["call", 0, "none", [1, 1], [], 0], ["call", 0, "none", [2], [], 0]],
+                                            "wait": "mine"}]]})
     # DISTINCT argument values whose hashes collide (-1/-2, constant-__hash__ objects): in flight together in the
     # same yield, in a later step while the first is blocked, and dirty() of the colliding twin must not evict
     f1 = {"kind": "func", "pos": [[0, None], [1, 0]], "kwonly": [], "varargs": False, "varkw": False}
@@ -662,6 +770,7 @@ class BaseErr(BaseException):
 
 
 def run_case(case):
+    import inspect
     import threading
     import time
 
@@ -720,10 +829,13 @@ def run_case(case):
     H = Hooks()
     cls_dict = {}
     plain = {}
+    raw_sig = {}
     for fi, d in enumerate(fns_decl):
         params = []
-        for nm, df in d["pos"]:
+        for i, (nm, df) in enumerate(d["pos"]):
             params.append("p%d" % nm if df is None else "p%d=%d" % (nm, df))
+            if i + 1 == d.get("posonly", 0):
+                params.append("/")
         if d["varargs"]:
             params.append("*rest")
         elif d["kwonly"]:
@@ -739,6 +851,7 @@ def run_case(case):
         ns = {"__H": H}
         exec(src, ns)
         # the seldom spelled-out keyword: keygetter=None is the default key
+        raw_sig[fi] = inspect.signature(ns["body%d" % fi])
         fn = (deduplicate(keygetter=None) if fi % 2 else deduplicate())(asynq.asynq()(ns["body%d" % fi]))
         if d["kind"] == "func":
             plain[fi] = fn
@@ -801,6 +914,9 @@ def run_case(case):
     special_tok = {id(o): t for t, o in special.items() if t in (60, 61, 74, 75)}
 
     def val(x):
+        if isinstance(x, int) and x >= PAIR_BASE:
+            feat("arg-name-value-tuple")
+            return ("p%d" % ((x - PAIR_BASE) // 1000), val((x - PAIR_BASE) % 1000))
         if isinstance(x, int) and x >= 1000:
             feat("arg-large-int")
             return int(str(x))                      # a new int object every time: equal, never identical
@@ -830,6 +946,8 @@ def run_case(case):
         if isinstance(x, str):
             return 71 if x == "" else UNKNOWN
         if isinstance(x, tuple):
+            if len(x) == 2 and isinstance(x[0], str) and x[0][:1] == "p" and x[0][1:].isdigit() and vtok(x[1]) < 1000:
+                return pair_tok(int(x[0][1:]), vtok(x[1]))
             return 72 if x == () else UNKNOWN
         if isinstance(x, frozenset):
             return 73 if not len(x) else UNKNOWN
@@ -1051,6 +1169,10 @@ def run_case(case):
             res = "(raised %s)" % type(e).__name__
         if size() < before:
             feat("dirty-removed-entry")
+        try:
+            raw_sig[fi].bind(*(([insts[recv[1]]] if fns_decl[fi]["kind"] == "method" and not isinstance(recv, str) else []) + a), **k)
+        except TypeError:
+            feat("dirty-args-do-not-bind:" + ("raised" if res == "(typeError)" else "returned"))
         log.append("(obs %s %s %d)" % (head, res, size()))
 
     nontriv = [False]
@@ -1188,8 +1310,8 @@ def run_case(case):
     for d in fns_decl:
         def ps(l):
             return " ".join("(%d %s)" % (nm, "none" if df is None else str(df)) for nm, df in l)
-        hdr.append("(fn %s (%s) (%s) %d %d)" % (d["kind"], ps(d["pos"]), ps(d["kwonly"]),
-                                                1 if d["varargs"] else 0, 1 if d["varkw"] else 0))
+        hdr.append("(fn %s (%s) (%s) %d %d %d)" % (d["kind"], ps(d["pos"]), ps(d["kwonly"]),
+                                                   1 if d["varargs"] else 0, 1 if d["varkw"] else 0, d.get("posonly", 0)))
     lines = ["(case dedup %d %s)" % (case["id"], " ".join(hdr))] + log + ["(end)"]
     fl = sorted(feats)
     fl += ["kind=" + k for k in sorted({d["kind"] for d in fns_decl})]
@@ -1199,6 +1321,16 @@ def run_case(case):
         fl.append("sig-varkw")
     if any(d["kwonly"] for d in fns_decl):
         fl.append("sig-kwonly")
+    if any(d.get("posonly", 0) for d in fns_decl):
+        fl.append("sig-posonly")
+    for d in fns_decl:
+        if d["varargs"] and d["kwonly"]:
+            fl.append("sig-open-to-conflation:varargs-kwonly")
+        elif d.get("posonly", 0) and d["varkw"]:
+            fl.append("sig-open-to-conflation:posonly-varkw")
+        elif d["varargs"] and d["varkw"]:
+            fl.append("sig-open-to-conflation:varargs-varkw-pair")
+    fl = sorted(set(fl))
     fl.append("ops<=%d" % next(b for b in (5, 10, 20, 40, 80, 10 ** 9) if len(log) <= b))
     fl.append("in-flight-entries<=%d" % next(b for b in (4, 16, 64, 128, 256, 512, 1024, 2048, 4096, 8192, 10 ** 9)
                                              if big[0] <= b))
